@@ -34,6 +34,7 @@ fn main() {
         "C03" => c03::run(&args),
         "C04" => c04::run(&args),
         "C08" => c08::run(&args),
+        "C08child" => c08::child_run(&args.rest),
         "C11" => c11::run(&args),
         "C16" => c16::run(&args),
         "C05" => c05::run(&args),
